@@ -84,7 +84,15 @@ def gen_case(rng, call, forced=None):
         kw.update(forced)
     own = rng.randint(0, 9)
     node = rng.choice([x for x in range(0, 12) if x != own])
-    return dict(call=call, kw=kw, node=node, sock=rng.randint(0, 7), own_node=own, remote_sock=rng.randint(0, 7))
+    case = dict(call=call, kw=kw, node=node, sock=rng.randint(0, 7), own_node=own, remote_sock=rng.randint(0, 7))
+    # hardware configuration: the handles must read pair i's response on every device (on NV the qubits are
+    # handed out in move-to-memory order)
+    if call in ("create_keep", "recv_keep") and "min_fidelity_all_at_end" not in kw and rng.random() < 0.5:
+        n = kw.get("number", 1)
+        case["hardware"] = rng.choice(["nv", "nvswap", "generic"])
+        case["max_qubits"] = n + rng.choice([0, 1]) if case["hardware"] != "generic" else max(n, rng.choice([1, 2, n + 1]))
+        case["max_qubits"] = max(case["max_qubits"], 1 if case["hardware"] == "generic" else 2)
+    return case
 
 
 def add_responses(ns, rng, case):
@@ -97,6 +105,96 @@ def add_responses(ns, rng, case):
         for r in case["resp"]:
             r[gi] %= 1000  # the first try satisfies the time limit derived from the fidelity
     return case
+
+
+def gen_scenario(ns, rng):
+    """one program with several EPR sockets (different remotes, equal and different local socket ids) used in
+    sequence; the stack's purpose function is drawn per scenario"""
+    own = rng.randint(0, 6)
+    names = rng.sample(["Bob", "Carol", "Dave"], rng.choice([2, 2, 3]))
+    ids = rng.sample([x for x in range(0, 8) if x != own], len(names))
+    peers = dict(zip(names, ids))
+    purpose = rng.choice(sorted(ec.PURPOSE_FUNCS))
+    f = ec.PURPOSE_FUNCS[purpose]
+    pairs = [(nm, sk) for nm in names for sk in (0, 1, 3)]
+    nsock = rng.choice([2, 3, 4])
+    if rng.random() < 0.7:   # the ordinary 3-node application: same local socket id towards two remotes
+        sk = rng.choice([0, 0, 1, 3])
+        chosen = [(names[0], sk), (names[1], sk)] + rng.sample([p for p in pairs if p[1] != sk], nsock - 2)
+    else:
+        chosen = rng.sample(pairs, nsock)
+    rng.shuffle(chosen)
+    sockets = [dict(remote=nm, sock=sk, remote_sock=rng.randint(0, 3)) for nm, sk in chosen]
+    ops = []
+    order = list(range(len(sockets)))
+    rng.shuffle(order)
+    order += [rng.randrange(len(sockets)) for _ in range(rng.choice([0, 1, 2]))]
+    for k, si in enumerate(order):
+        call = rng.choice(["create_keep", "recv_keep", "create_measure", "recv_measure", "create_keep", "create_measure"])
+        kw = dict(number=rng.randint(1, 2))
+        if call == "create_measure" and rng.random() < 0.5:
+            kw["rotations_local"] = rot(rng)
+        if call in ec.CREATE_CALLS and rng.random() < 0.4:
+            kw.update(time_unit=rng.choice(UNITS), max_time=rng.randint(1, 999))
+        node, sk = peers[sockets[si]["remote"]], sockets[si]["sock"]
+        op = dict(socket=si, call=call, kw=kw, node=node, sock=sk, purpose=f(node, sk), own_node=own, peers=peers)
+        op["resp"] = ec.gen_responses(ns, rng, op)
+        if not ec.resp_is_m(call):
+            for i, r in enumerate(op["resp"]):
+                r[2] = 100 * (k + 1) + i      # physical qubit ids distinct across the whole program
+        ops.append(op)
+    nk = sum(op["kw"]["number"] for op in ops if not ec.resp_is_m(op["call"]))
+    return dict(purpose=purpose, own_node=own, peers=peers, sockets=sockets, ops=ops, flush_each=rng.random() < 0.6,
+                max_qubits=max(8, nk + 1))   # without intermediate flushes all kept pairs are live at once
+
+
+def scenario_oracle(ns, scen, out):
+    fails = []
+    if out["error"]:
+        return [("a program using several EPR sockets raised", out["error"])]
+    for k, (op, got) in enumerate(zip(scen["ops"], out["ops"])):
+        tag = f"op {k} ({op['call']} on socket {op['socket']} -> {scen['sockets'][op['socket']]['remote']}/{op['sock']})"
+        if op["call"] in ec.CREATE_CALLS:
+            if got["request"] is None:
+                fails.append((tag + ": no request reached the network stack", ""))
+                continue
+            exp, _, _ = ec.spec_request(ns, op)
+            exp["purpose_id"] = ("int", op["purpose"])    # what the stack returns for THIS (remote, socket)
+            g = dict(got["request"])
+            diff = {fl: dict(got=g.get(fl), expected=v) for fl, v in exp.items() if g.get(fl) != v}
+            if diff:
+                fails.append((tag + ": the request the stack received differs from the call's parameters / the purpose "
+                              "id the stack assigned to this (remote, socket)", diff))
+        n = op["kw"].get("number", 1)
+        if got["bookkeeping"] is None or [[op["node"], op["purpose"]], n] not in [list(x) for x in got["bookkeeping"]]:
+            fails.append((tag + ": the controller registered the operation under another (remote, purpose)", got["bookkeeping"]))
+        if got["handles"] is None:
+            fails.append((tag + ": no result handles", ""))
+        else:
+            bad = ec.check_handles(ns, op, got["handles"])
+            if bad:
+                fails.append((tag + ": a result handle does not show the field of its pair's response", bad[:4]))
+    return fails
+
+
+def strip_scen(scen):
+    return dict(purpose=scen["purpose"], own_node=scen["own_node"], peers=scen["peers"], sockets=scen["sockets"],
+                flush_each=scen["flush_each"], max_qubits=scen.get("max_qubits", 8),
+                ops=[{k: op[k] for k in ("socket", "call", "kw", "node", "sock", "purpose", "resp")} for op in scen["ops"]])
+
+
+def run_scenarios(ctx, ns, scens, meta):
+    for scen in scens:
+        out = ec.run_scenario(ctx.repo, ns, scen)
+        ctx.note_case(("scenario", json.dumps(strip_scen(scen), sort_keys=True)), nontrivial=True)
+        meta["dist"]["scenario:" + scen["purpose"]] = meta["dist"].get("scenario:" + scen["purpose"], 0) + 1
+        socks = [(sd["remote"], sd["sock"]) for sd in scen["sockets"]]
+        if any(a[1] == b[1] and a[0] != b[0] for a in socks for b in socks):
+            meta["dist"]["scenario:same socket id, two remotes"] = meta["dist"].get("scenario:same socket id, two remotes", 0) + 1
+        for what, detail in scenario_oracle(ns, scen, out):
+            ctx.violation(what, dict(scenario=strip_scen(scen), observed=detail,
+                                     requests=[o["request"] for o in out["ops"]]), key=None)
+            break
 
 
 def shape_cases(rng):
@@ -198,7 +296,7 @@ def oracle(ctx, ns, case, res):
 
 
 def strip(case):
-    return {k: case[k] for k in ("call", "kw", "node", "sock", "own_node", "remote_sock", "resp", "resp_format") if k in case}
+    return {k: case[k] for k in ("call", "kw", "node", "sock", "own_node", "remote_sock", "resp", "resp_format", "hardware", "max_qubits") if k in case}
 
 
 def run_stream(ctx, ns, cases, tag, rcases, hcases, meta):
@@ -243,6 +341,8 @@ def controller_cases(ctx, ns, n):
         ex._subroutines[4242] = sub  # a live subroutine of this application
         app = sub.app_id
         nfields = len(qc.LinkLayerCreate._fields) - 2
+        pf = ec.PURPOSE_FUNCS["remote16"]
+        ex.network_stack.get_purpose_id = lambda remote_node_id, epr_socket_id: pf(remote_node_id, epr_socket_id)
         for k in range(n):
             ln = nfields if rng.random() < 0.85 else rng.choice([0, 1, nfields - 1, nfields + 1, nfields + 3])
             arr = []
@@ -256,11 +356,17 @@ def controller_cases(ctx, ns, n):
                     arr.append(rng.choice([5, 7, 31, 10 ** 6, -1, 2 ** 31 - 1]))
             if rng.random() < 0.6 and ln > 0:
                 arr[0] = rng.choice([0, 1, 2])  # mostly valid request types
-            node, purpose = rng.randint(0, 9), rng.randint(0, 7)
+            node, sockid = rng.randint(0, 9), rng.randint(0, 3)   # few socket ids: they repeat across remote nodes
+            purpose = pf(node, sockid)                              # what the stack answers for THIS (remote, socket)
             ex._app_arrays[app]._arrays[77] = list(arr)
             try:
-                req = ex._get_create_request(subroutine_id=4242, remote_node_id=node, epr_socket_id=purpose,
+                req = ex._get_create_request(subroutine_id=4242, remote_node_id=node, epr_socket_id=sockid,
                                              arg_array_address=77)
+                if req.purpose_id != purpose:
+                    ctx.violation("_get_create_request puts another purpose id into the request than the stack returns "
+                                  "for this (remote node, socket)",
+                                  dict(remote_node_id=node, epr_socket_id=sockid, stack_purpose_id=purpose,
+                                       request_purpose_id=req.purpose_id, call_index=k), key=None)
                 creq = ec.canon_request(req)
                 try:
                     qc.request_to_qlink_1_0(req)
@@ -297,7 +403,11 @@ def run(ctx):
     import codec_impl as ci
 
     t0 = time.time()
-    ctx.rule = ("real EPRSocket calls (create_keep/_measure/_rsp, recv_keep/_measure/_rsp) through the in-process "
+    ctx.rule = ("[also: K calls on generic / NV / NV-by-swap devices of several sizes with Qubit.entanglement_info read for "
+                "every returned qubit; programs with 2-4 EPR sockets to 2-3 remote nodes (equal and different local socket ids), "
+                "2-6 operations in sequence in one connection, the stack's purpose function drawn per program (identity / "
+                "16*remote+socket / swap); _get_create_request called in sequence with a remote-dependent purpose function] "
+                "real EPRSocket calls (create_keep/_measure/_rsp, recv_keep/_measure/_rsp) through the in-process "
                 "pipeline: number 1..4, time unit x limit (0 / boundary / random), rotation triples 0..31 "
                 "(zero, one-hot, pairwise-distinct) or named bases, random-basis sets (absent + 4 members) per side, "
                 "min-fidelity loops, random node/socket ids; n scripted link-layer responses whose free fields are "
@@ -352,7 +462,9 @@ def run(ctx):
         sh = rng.sample(sh, 90)
     cases += [add_responses(ns, rng, c) for c in sh]
     run_stream(ctx, ns, cases, "generated", rcases, hcases, meta)
-    ctx.log(f"{len(cases)} pipeline cases in {time.time() - t0:.1f}s")
+    scens = [gen_scenario(ns, rng) for _ in range(60 if quick else 1200)]
+    run_scenarios(ctx, ns, scens, meta)
+    ctx.log(f"{len(cases)} pipeline cases + {len(scens)} multi-socket programs in {time.time() - t0:.1f}s")
     ccases, cmeta = controller_cases(ctx, ns, 200 if quick else 3000)
     ctx.samples = [strip(c) for c in cases[:2] + cases[len(cases) // 2:len(cases) // 2 + 2] + cases[-2:]]
     ctx.coverage["stream_distribution"] = meta["dist"]
